@@ -227,7 +227,7 @@ func repeatByte(b byte, n int) []byte {
 	return out
 }
 
-var decodeTypes = []string{"Iface", "Small", "Tagged", "Big", "Nested", "Recursive", "WithIface", "WithBytes", "StrTag", "Ptrs", "Floats", "Ints", "IntKeys",
+var decodeTypes = []string{"Iface", "Odd", "Small", "Tagged", "Big", "Nested", "Recursive", "WithIface", "WithBytes", "StrTag", "Ptrs", "Floats", "Ints", "IntKeys",
 	"SliceSmall", "MapStrSmall", "MapStrIface", "SliceIface", "WithUCB", "Embedded", "MutA", "SliceString", "MapStrSlice", "Wide", "CaseColl", "SliceSlice", "MapStrPtrSmall", "ArrSmall2"}
 
 // genBigFamily: "however large the document": documents of 4 KiB .. 1 MiB
